@@ -9,7 +9,7 @@ use ant_protocol::storage::{
     Scratchpad, Transaction,
 };
 use ant_protocol::NetworkAddress;
-use ant_registers::{Permissions, SignedRegister};
+use ant_registers::{Permissions, RegisterAddress, SignedRegister};
 use bytes::Bytes;
 use libp2p::kad::RecordKey;
 use rand::{rngs::StdRng, seq::SliceRandom, Rng, SeedableRng};
@@ -45,7 +45,13 @@ fn run_decoders(bytes: &[u8]) {
     let r = rec(bytes.to_vec());
     let _ = RecordHeader::from_record(&r);
     let _ = RecordHeader::try_deserialize(bytes);
-    let _ = RecordHeader::is_record_of_type_chunk(&r);
+    // the helper must fail exactly when the header does not decode, and otherwise tell whether the kind is Chunk
+    let helper = RecordHeader::is_record_of_type_chunk(&r);
+    match (RecordHeader::from_record(&r), helper) {
+        (Ok(h), Ok(b)) => assert_eq!(b, h.kind == RecordKind::Chunk, "is_record_of_type_chunk disagrees with the decoded kind"),
+        (Err(_), Err(_)) => {}
+        (a, b) => panic!("is_record_of_type_chunk {:?} while the header decodes to {:?}", b.map_err(|_| "Err"), a.map(|h| h.kind).map_err(|_| "Err")),
+    }
     let _ = try_deserialize_record::<Chunk>(&r);
     let _ = try_deserialize_record::<(ProofOfPayment, Chunk)>(&r);
     let _ = try_deserialize_record::<Scratchpad>(&r);
@@ -95,13 +101,46 @@ fn random_request(rng: &mut impl Rng) -> Request {
 }
 
 fn random_response(rng: &mut impl Rng) -> Response {
+    random_response_with(rng, false)
+}
+
+/// `wide`: draw errors from every variant of the protocol error type (the committed golden corpus was generated
+/// with the narrow set and must keep its random sequence)
+fn random_response_with(rng: &mut impl Rng, wide: bool) -> Response {
     use ant_protocol::error::Error as PErr;
-    fn err(rng: &mut impl Rng) -> PErr {
+    let err = |rng: &mut dyn rand::RngCore| -> PErr { if wide { err_wide(rng) } else { err_narrow(rng) } };
+    fn err_narrow(mut rng: &mut dyn rand::RngCore) -> PErr {
+        let rng = &mut rng;
         match rng.gen_range(0..4) {
             0 => PErr::GetStoreQuoteFailed,
             1 => PErr::QuoteGenerationFailed,
             2 => PErr::ChunkDoesNotExist(random_address(rng)),
             _ => PErr::RecordHeaderParsingFailed,
+        }
+    }
+    fn err_wide(mut rng: &mut dyn rand::RngCore) -> PErr {
+        let rng = &mut rng;
+        // every variant of the protocol error type (all of them travel inside responses)
+        match rng.gen_range(0..16) {
+            0 => PErr::GetStoreQuoteFailed,
+            1 => PErr::QuoteGenerationFailed,
+            2 => PErr::ChunkDoesNotExist(random_address(rng)),
+            3 => PErr::RecordHeaderParsingFailed,
+            4 => PErr::RecordParsingFailed,
+            5 | 6 => {
+                let n = *[0usize, 1, 23, 24, 31, 32, 33, 64, 300].choose(rng).expect("nonempty");
+                let key = libp2p::kad::RecordKey::from(gen::bytes(rng, n));
+                PErr::RecordExists(ant_protocol::PrettyPrintRecordKey::from(&key).into_owned())
+            }
+            7 => PErr::ReplicatedRecordNotFound { holder: Box::new(random_address(rng)), key: Box::new(random_address(rng)) },
+            8 => PErr::RegisterRecordNotFound { holder: Box::new(random_address(rng)), key: Box::new(random_address(rng)) },
+            9 => PErr::RegisterNotFound(Box::new(RegisterAddress::new(XorName(rng.gen()), gen::bls_sk(rng).public_key()))),
+            10 => PErr::RegisterAlreadyClaimed(gen::bls_sk(rng).public_key()),
+            11 => PErr::ScratchpadHexDeserializeFailed,
+            12 => PErr::ScratchpadCipherTextFailed,
+            13 => PErr::ScratchpadCipherTextInvalid,
+            14 => PErr::UserDataDirectoryNotObtainable,
+            _ => PErr::CouldNotObtainDataDir,
         }
     }
     match rng.gen_range(0..8) {
@@ -188,6 +227,17 @@ fn golden_corpus() -> BTreeMap<String, (Vec<u8>, Option<Vec<u8>>)> {
     for i in 0..12 {
         let a = random_address(&mut rng);
         out.insert(format!("address/{i:02}"), (rmp_serde::to_vec(&a).expect("rmp"), Some(cbor_enc(&a))));
+    }
+    // responses carrying every variant of the protocol error type (own random sequence, appended later)
+    let mut rng2 = StdRng::seed_from_u64(0x12_E4404);
+    let mut i = 0;
+    while i < 48 {
+        let s = random_response_with(&mut rng2, true);
+        if !format!("{s:?}").contains("Err(") {
+            continue;
+        }
+        out.insert(format!("response/e{i:02}"), (rmp_serde::to_vec(&s).expect("rmp"), Some(cbor_enc(&s))));
+        i += 1;
     }
     out
 }
@@ -351,7 +401,7 @@ impl Check for C12 {
         false
     }
     fn required_counters(&self, _tier: Tier) -> Vec<&'static str> {
-        vec!["tags-judged", "golden-vectors", "hostile-inputs", "roundtrip:register_with_payment"]
+        vec!["failed-serialisations-before-roundtrips", "tags-judged", "golden-vectors", "hostile-inputs", "roundtrip:register_with_payment"]
     }
     fn miri_lane(&self, tier: Tier) -> Option<(Vec<&'static str>, usize, usize)> {
         if tier == Tier::Thorough { Some((vec!["record", "message", "address"], 12, 400)) } else { None }
@@ -363,6 +413,22 @@ impl Check for C12 {
             cx.sample(json!({"kind": "tag-table", "tags": TAGS.iter().map(|(k, t)| format!("{k}={t}")).collect::<Vec<_>>()}));
         }
         let mut encodings: Vec<Vec<u8>> = vec![];
+        // a serialisation that fails (a proof whose quote is dated before the unix epoch cannot be encoded) must not
+        // influence what is encoded afterwards on this thread
+        if cx.rng.gen_bool(0.5) {
+            let kp = gen::ed_keypair(&mut cx.rng);
+            let mut bad = gen::proof_for(XorName(cx.rng.gen()), &[&kp], &mut cx.rng);
+            for (_, q) in bad.peer_quotes.iter_mut() {
+                q.timestamp = SystemTime::UNIX_EPOCH - Duration::from_secs(cx.rng.gen_range(1..1_000_000));
+            }
+            let c = gen::chunk(&mut cx.rng, 40);
+            let kind = *[RecordKind::ChunkWithPayment, RecordKind::ScratchpadWithPayment, RecordKind::Chunk].choose(&mut cx.rng).expect("nonempty");
+            match catch(|| try_serialize_record(&(bad, c), kind)) {
+                Ok(Err(_)) => cx.count("failed-serialisations-before-roundtrips"),
+                Ok(Ok(_)) => cx.count("pre-epoch-proof-serialised"),
+                Err(p) => cx.violation("encoder-panic", format!("try_serialize_record panicked on a pre-epoch quote timestamp: {p}"), json!({})),
+            }
+        }
         // (b) round trips
         let csize = *[0usize, 1, 2, 31, 32, 33, 255, 256, 1000, 65_535, 65_536, 70_000].choose(&mut cx.rng).expect("nonempty");
         let chunk = gen::chunk(&mut cx.rng, csize);
@@ -416,7 +482,7 @@ impl Check for C12 {
         // messages
         for _ in 0..6 {
             let r = random_request(&mut cx.rng);
-            let s = random_response(&mut cx.rng);
+            let s = random_response_with(&mut cx.rng, true);
             cx.evals(2);
             cx.count("roundtrip:messages");
             let (rb, sb) = (rmp_serde::to_vec(&r).expect("rmp"), rmp_serde::to_vec(&s).expect("rmp"));
